@@ -43,12 +43,13 @@ FORMS2 = [("call", "{f}(va, vb)"), ("infix", "va {f} vb"), ("bang", "{f} ! va, v
           ("sec1", "{f}(_, vb)(va)"), ("sec2", "{f}(va, _)(vb)"), ("chsec1", "(_ {f} vb)(va)"),
           ("chsec2", "(va {f} _)(vb)"), ("apply", "[va, vb] apply {f}"), ("of", "{f} of [va, vb]"),
           ("splat", "{f}(...[va, vb])"), ("juxta", "(va {f})(vb)"), ("rsec", "{f}(vb)(va)"),
-          ("opassign", "xx = va; xx {f}= vb; xx")]
+          ("opassign", "xx = va; xx {f}= vb; xx"), ("secsp1", "{f}(_, ...[vb])(va)"), ("secsp2", "{f}(...[va], _)(vb)")]
 FORMS1 = [("call", "{f}(va)"), ("bang", "{f} ! va"), ("splat", "{f}(...[va])"), ("dot", "va . {f}"),
           ("then", "va then {f}"), ("sec", "{f}(_)(va)")]
 FORMS3 = [("call", "{f}(va, vb, vc)"), ("bang", "{f} ! va, vb, vc"), ("splat", "{f}(...[va, vb, vc])"),
           ("sec1", "{f}(_, vb, vc)(va)"), ("sec2", "{f}(va, _, vc)(vb)"), ("sec3", "{f}(va, vb, _)(vc)"),
-          ("secall", "{f}(_, _, _)(va, vb, vc)")]
+          ("secall", "{f}(_, _, _)(va, vb, vc)"), ("secsp1", "{f}(_, ...[vb, vc])(va)"),
+          ("secsp3", "{f}(...[va, vb], _)(vc)"), ("secspmid", "{f}(va, _, ...[vc])(vb)")]
 # user-defined functions in the global environment, enumerated together with the builtins
 USER_FUNCS = {
     "u_two": "u_two := \\a, b -> [a, b]",
